@@ -11,7 +11,7 @@ Definition xyzZ := (Z * Z * Z)%type.
 Definition fexp (x : float) : Z := match f2ZE x with Some (_, e) => e | None => 0 end.
 Definition min_exp (l : list float) : Z := fold_left (fun acc x => Z.min acc (fexp x)) l 0.
 (* x / 2^E as an integer, exact whenever E <= exponent of x *)
-Definition scaleZ (E : Z) (x : float) : Z := match f2ZE x with Some (m, e) => m * 2 ^ (e - E) | None => 0 end.
+Definition scaleZ (E : Z) (x : float) : Z := match f2ZE x with Some (m, e) => Z.shiftl m (e - E) | None => 0 end.
 Definition flat3 (l : list xyzF) : list float := flat_map (fun p => let '(x, y, z) := p in [x; y; z]) l.
 Definition scale3 (E : Z) (p : xyzF) : xyzZ := let '(x, y, z) := p in (scaleZ E x, scaleZ E y, scaleZ E z).
 Definition sqd (p q : xyzZ) : Z :=
@@ -36,16 +36,43 @@ Record geo_case := mk_geo {
   g_tol : Z * Z                                                  (* (a, b): accepted slack a/b on squared distances *)
 }.
 
+(* ---- fast, proved-sound form of [accept_list] on coordinates (Proofs/C02_fast.v: accept_fast_sound) ----
+   Besides the exact integer coordinates every point carries coarse ones (x / u, floor).  A source is shown to be
+   far enough (bound <= a * d2) from the coarse coordinates alone whenever possible:
+   u^2 * lbd <= d2 (lb1_sound), so thr <= lbd with thr = ceil(bound / (a u^2)) suffices; otherwise the exact
+   test is used (near-ties only). *)
+Definition coarse (u : Z) (p : xyzZ) : xyzZ := let '(x, y, z) := p in (x / u, y / u, z / u).
+Definition lb1 (xc yc : Z) : Z := let dd := Z.abs (xc - yc) - 1 in if dd <=? 0 then 0 else dd * dd.
+Definition lbd (pc qc : xyzZ) : Z :=
+  let '(x, y, z) := pc in let '(x', y', z') := qc in lb1 x x' + lb1 y y' + lb1 z z'.
+Definition cdivZ (num den : Z) : Z := (num + den - 1) / den.
+Definition far_enough (a bound thr : Z) (tf tc : xyzZ) (s : xyzZ * xyzZ) : bool :=
+  if thr <=? lbd tc (snd s) then true else bound <=? a * sqd tf (fst s).   (* [if]: the VM evaluates both arguments of || *)
+Definition with_coarse (u : Z) (srcs : list xyzZ) : list (xyzZ * xyzZ) := map (fun q => (q, coarse u q)) srcs.
+Definition pt0 : xyzZ * xyzZ := ((0, 0, 0), (0, 0, 0)).
+Definition accept_fast (a b r2 u : Z) (tf : xyzZ) (srcs : list (xyzZ * xyzZ)) (i : nat) : bool :=
+  (0 <? a) && (0 <? u) &&
+  (let tc := coarse u tf in
+   if (i <? length srcs)%nat
+   then let bound := b * sqd tf (fst (nth i srcs pt0)) in
+        let thr := cdivZ bound (a * (u * u)) in
+        forallb (far_enough a bound thr tf tc) srcs && (bound <=? a * r2)
+   else (i =? length srcs)%nat &&
+        (let bound := b * r2 in
+         let thr := cdivZ bound (a * (u * u)) in
+         forallb (far_enough a bound thr tf tc) srcs)).
+
 (* every observed index is an acceptable answer for the exact distance table *)
 Definition accept_all (g : geo_case) : bool :=
   let fl := g_r g :: flat3 (g_sxyz g) ++ flat3 (g_txyz g) in
   let E := min_exp fl in
-  let sz := map (scale3 E) (g_sxyz g) in
+  let u := Z.shiftl 1 (Z.max 0 (-20 - E)) in                  (* coarse unit 2^-20 m (or the fine unit if coarser) *)
+  let sz := with_coarse u (map (scale3 E) (g_sxyz g)) in
   let tz := map (scale3 E) (g_txyz g) in
   let R := scaleZ E (g_r g) in
   let '(a, b) := g_tol g in
   forallb f_isfinite fl &&
-  list_eqb (fun t i => accept_list a b (R * R) (map (sqd t) sz) (Z.to_nat i)) tz (g_idx g).
+  list_eqb (fun t i => accept_fast a b (R * R) u t sz (Z.to_nat i)) tz (g_idx g).
 
 Definition geo_code (g : geo_case) : Z :=
   let vin := valid_input_index F64 (g_slon g) (g_slat g) in
